@@ -335,6 +335,10 @@ func (r *PeriodicReader) Shutdown(ctx context.Context) error {
 			err = r.collect(ctx, ph, m)
 			if err == nil {
 				err = r.export(ctx, m)
+			} else if len(m.ScopeMetrics) > 0 && ctx.Err() == nil {
+				// As in collectAndExport: do not lose what was collected
+				// because a callback reported an error.
+				err = errors.Join(err, r.export(ctx, m))
 			}
 			r.rmPool.Put(m)
 		}
